@@ -90,7 +90,7 @@ class ExprMixin:
         if isinstance(v, VStr):
             if v.lit is not None:
                 return z3.BoolVal(len(v.lit) > 0)
-            return z3.Function('str_nonempty', StrS, Bo)(v.t)
+            return v.t != str_lit('').t       # exact: a str is false exactly when it is the empty string
         if isinstance(v, VBits):
             # an int viewed as its set of one-bits is non-zero iff some bit is set
             i = z3.Int(fresh_name('tb'))
@@ -677,6 +677,11 @@ class ExprMixin:
                     return [(st, str_lit(a.lit + b.lit))]
                 return [(st, VStr(z3.Function('str_concat', StrS, StrS, StrS)(a.t, b.t)))]
         if isinstance(op, ast.Mod) and isinstance(a, VStr):
+            items = b.items if isinstance(b, VTuple) else [b]
+            if a.lit is not None and items and all(type(x) in (VStr, VInt) for x in items):
+                # a literal format applied to strings / ints: a function of the arguments (one uninterpreted function per format text)
+                f = z3.Function('fmt:' + a.lit, *([StrS if type(x) is VStr else I for x in items] + [StrS]))
+                return [(st, VStr(f(*[x.t for x in items])))]
             return [(st, VStr(fresh(STR, 'fmt')))]
         if isinstance(op, ast.Mult) and ((isinstance(a, VBytes) and self.is_numeric(b)) or (isinstance(b, VBytes) and self.is_numeric(a))):
             # repetition of a one-byte string: max(n, 0) copies of that byte (longer patterns are not modelled)
@@ -687,6 +692,8 @@ class ExprMixin:
             n = self.as_int(cnt, node)
             byte = z3.simplify(pat.at(z3.IntVal(0)))
             return [(st, VBytes(z3.simplify(z3.If(n > 0, n, 0)), lambda i, byte=byte: byte))]
+        if isinstance(op, ast.BitXor) and isinstance(a, VBool) and isinstance(b, VBool):
+            return [(st, VBool(z3.Xor(a.t, b.t)))]
         if isinstance(op, ast.Div) and isinstance(a, (VRef, VAny)) and a.ty[0] in ('ref', 'any'):
             # pathlib-style division: handled by an external contract
             return self.call_external(st, 'operator.truediv', [a, b], {}, node)
@@ -1069,6 +1076,11 @@ class ExprMixin:
         self.unsupported(e, 'starred expression')
 
     def e_GeneratorExp(self, st, e):
+        hints = getattr(self.cur_contract, 'hints', None) or {}
+        if hints.get('exact_map') and not self.spec_mode and len(e.generators) == 1 and not e.generators[0].ifs:
+            # a generator handed to a consumer that reads it once, in order (str.join): the list of its items (the element
+            # expression must be free of side effects: checked by exact_map)
+            return self.comprehension(st, e, 'list')
         self.unsupported(e, 'generator expression outside a supported consumer (any/all/tuple/sum)')
 
     def e_ListComp(self, st, e):
